@@ -24,7 +24,7 @@ type pqWindow struct {
 }
 
 func init() {
-	probeNames["C06"] = []string{"image_nonempty_pending", "crash_in_flush", "crash_in_ack", "recovered_with_inprogress_flush", "recovered_with_inprogress_ack", "redelivered_unacked", "pq_reopen", "torn_header"}
+	probeNames["C06"] = []string{"image_nonempty_pending", "crash_in_flush", "crash_in_ack", "recovered_with_inprogress_flush", "recovered_with_inprogress_ack", "redelivered_unacked", "pq_reopen", "torn_header", "big_flush"}
 	register(&PropDef{
 		ID: "C06", Level: "fault_enumeration", QuickSec: 55, ThoroSec: 1200,
 		Rule: "each run = one seeded queue history (<=60 events, producer/consumer/ACK/clean reopen) on the simulated disk; evaluations = crash images: for EVERY op-log index after queue creation x subsets of the un-synced writes (all subsets up to 5 quick / 7 thorough pending ops, sampled above) x header tears; each image is opened by the real engine (file, standalone delegate, queue) and drained with the real reader. Oracle: the drained sequence is exactly model events [a,b), byte-identical and in order, with a in {ACKed total of completed ACKs} + {+n of an ACK in progress at the crash} and b in {events published by completed producer calls} + {events an in-progress producer call may publish}; Pending == b-a. Non-trivial = image with at least one pending op taken inside a producer or ACK call; distinct = (run, crash index, kept subset, tear).",
@@ -46,6 +46,25 @@ func c06Body(e *Env) {
 		nops = 30 + rng.Intn(120)
 	}
 	var pp *PQ
+	big := false
+	if c.Cfg == nil && rng.Intn(25) == 0 {
+		// "big flush" variant: one flush transaction with more page writes in
+		// flight than the writer takes in one batch (1024)
+		cfg := DrawPQCfg(e.Rng("cfg"), false)
+		cfg.PageSize, cfg.MaxSize, cfg.BgWeight, cfg.Stick, cfg.Variant = 1024, 0, 0.05, 0.9, 9
+		c.Cfg = &cfg
+		n := (1040 + rng.Intn(500)) * (1024 - pqPageHeader)
+		c.Tasks = map[string][]Op{"main": {
+			{K: "write", A: 300, B: 300}, {K: "next"}, {K: "flush"},
+			{K: "write", A: n, B: 65536}, {K: "next"}, {K: "flush"},
+			{K: "rbegin"}, {K: "rnext"}, {K: "rread", A: 512}, {K: "rdone"}, {K: "ack", A: 0},
+			{K: "write", A: 100, B: 100}, {K: "next"}, {K: "flush"},
+		}}
+	}
+	if c.Cfg != nil && c.Cfg.Variant == 9 {
+		big = true
+		e.Probe("big_flush")
+	}
 	p := pqWorkload(e, rng.Intn(4) == 0, nops, func(p *PQ, g *PQGen) {
 		pp = p
 		p.Prop = "C06"
@@ -100,7 +119,7 @@ func c06Body(e *Env) {
 		return
 	}
 	p.Q = nil
-	p.F.Close()
+	p.E.CloseFile(p.F)
 	p.F = nil
 	sizes := append([]int(nil), p.Sizes...)
 	runSig := sigOfOps(p.Ops, uint64(p.Cfg.PageSize), uint64(p.Cfg.WriteBuf))
@@ -111,7 +130,7 @@ func c06Body(e *Env) {
 	if c.Tier == "thorough" {
 		maxExh, nrand = 7, 24
 	}
-	plan := CrashPlan{From: 0, MaxExh: maxExh, NRandom: nrand, PageSize: p.Cfg.PageSize, Tear: true, Rng: e.Rng("crash"), Only: c.Crash, Stop: e.Failed}
+	plan := CrashPlan{From: 0, MaxExh: maxExh, NRandom: nrand, PageSize: p.Cfg.PageSize, Tear: true, Rng: e.Rng("crash"), Only: c.Crash, Stop: e.Failed, SparseK: big}
 	evals := 0
 	// reopen restarts callbacks' baseline: windows carry absolute totals because PQ.afterRestart re-bases cbFlushed/cbAcked
 	EnumerateCrashes(log, initImg, plan, func(k int, ch *CrashChoice, n int, img []byte) {
@@ -196,7 +215,7 @@ func c06Eval(e *Env, cfg Cfg, img []byte, sizes []int, allowedA, allowedB []int,
 	var err error
 	if e.Guard("C06", "opening file and queue of crash image ("+desc+")", func() {
 		d2.Lock(true, false)
-		f, err = txfile.VerifOpenWith(d2, txfile.Options{MaxSize: uint64(cfg.MaxSize), PageSize: uint32(cfg.PageSize)})
+		f, err = e.OpenFile(d2, txfile.Options{MaxSize: uint64(cfg.MaxSize), PageSize: uint32(cfg.PageSize)})
 		if err != nil {
 			return
 		}
@@ -216,7 +235,7 @@ func c06Eval(e *Env, cfg Cfg, img []byte, sizes []int, allowedA, allowedB []int,
 	}
 	defer func() {
 		q.Close()
-		f.Close()
+		e.CloseFile(f)
 	}()
 	var got [][]byte
 	var pending int
